@@ -1,0 +1,27 @@
+//go:build verif
+
+// Contracts for the govc verifier (/verif). Comment-only.
+
+package zero
+
+//@ func Bytes(b)
+//@   property C05 C17
+//@   invariant 1 idx: 0 <= rangeindex + 1 && rangeindex + 1 <= len(b)
+//@   invariant 1 zeroed: forall k Int :: {b[k]} 0 <= k && k <= rangeindex ==> b[k] == 0
+//@   invariant 1 frame: forall o Int :: {select(@M(uint8), o)} o != b.base ==> select(@M(uint8), o) == select(old(@M(uint8)), o)
+//@   invariant 1 frame_row: forall i Int :: {select(select(@M(uint8), b.base), i)} (i < b.off || i >= b.off + len(b)) ==> select(select(@M(uint8), b.base), i) == select(select(old(@M(uint8)), b.base), i)
+//@   ensures zeroed: forall k Int :: {b[k]} 0 <= k && k < len(b) ==> b[k] == 0
+//@   ensures frame: forall o Int :: {select(@M(uint8), o)} o != b.base ==> select(@M(uint8), o) == select(old(@M(uint8)), o)
+//@   ensures frame_row: forall i Int :: {select(select(@M(uint8), b.base), i)} (i < b.off || i >= b.off + len(b)) ==> select(select(@M(uint8), b.base), i) == select(select(old(@M(uint8)), b.base), i)
+
+//@ func Bytea32(b)
+//@   property C05 C17
+//@   requires nonnil: b != nil
+//@   ensures zeroed: forall k Int :: {b[k]} 0 <= k && k < 32 ==> b[k] == 0
+//@   ensures frame: forall o Int :: {select(@M(uint8), o)} o != b ==> select(@M(uint8), o) == select(old(@M(uint8)), o)
+
+//@ func Bytea64(b)
+//@   property C05 C17
+//@   requires nonnil: b != nil
+//@   ensures zeroed: forall k Int :: {b[k]} 0 <= k && k < 64 ==> b[k] == 0
+//@   ensures frame: forall o Int :: {select(@M(uint8), o)} o != b ==> select(@M(uint8), o) == select(old(@M(uint8)), o)
